@@ -855,6 +855,8 @@ impl<'a> Interp<'a> {
         self.seed_builtins(&m);
         self.modules.insert(path.to_string(), m.clone());
         if self.frames.len() >= FRAMES_MAX {
+            // the body never started: nothing was loaded
+            self.modules.remove(path);
             return Err(self.throw_kind(ErrKind::Index, Some("Stack overflow.".into())));
         }
         self.frames.push(Frame { func: String::new(), module: path.to_string(), line: 0, core: false });
@@ -875,10 +877,12 @@ impl<'a> Interp<'a> {
                 Ok(m)
             }
             Err(Ctl::Throw(v)) => {
-                // the module stays registered as "being loaded"; importing it again is outside the
-                // alphabet (X).  The trace was captured when the value was thrown.
+                // a module whose top-level code was abandoned has not been loaded: it is forgotten, and a
+                // later import of the same path starts afresh.  The trace was captured when the value was
+                // thrown.
                 self.event("module_body_threw");
                 self.frames.pop();
+                self.modules.remove(path);
                 Err(Ctl::Throw(v))
             }
             Err(e) => Err(e),
